@@ -1,0 +1,21 @@
+//go:build verif
+
+package dials
+
+import "reflect"
+
+// VerifCompose exposes compose for config types built with reflect.StructOf
+// (which cannot be used as a generic type parameter).  t is a pointer to the
+// defaults; layers are values of the pointerified type (or pointers to them).
+func VerifCompose(t interface{}, layers []reflect.Value) (interface{}, error) {
+	svs := make([]sourceValue, len(layers))
+	for i, l := range layers {
+		svs[i] = sourceValue{value: l}
+	}
+	return compose(t, svs)
+}
+
+// VerifDeepCopy exposes the deep copier used for defaults and source values.
+func VerifDeepCopy(v reflect.Value) reflect.Value {
+	return deepCopyValue(v)
+}
